@@ -11,6 +11,7 @@ CONSTANTS
   MaxOps = 100000
   GenHist = FALSE
   F2Fixed = FALSE
+  CuGuard = FALSE
   Profile = ""
 INIT TInit
 NEXT TNext
